@@ -161,8 +161,12 @@ def compile_and_exec_form(
     if not ns.module.__basilisp_bootstrapped__:
         _bootstrap_module(ctx.generator_context, ctx.py_ast_optimizer, ns.module)
 
+    # A top-level `do` is unrolled into its forms; one without any form is still a form
+    # (which evaluates to nil)
+    unrolled_forms = list(_flatmap_forms([form])) or [form]
+
     last = _sentinel
-    for unrolled_form in _flatmap_forms([form]):
+    for unrolled_form in unrolled_forms:
         final_wrapped_name = genname(wrapped_fn_name)
         lisp_ast = analyze_form(ctx.analyzer_context, unrolled_form)
         py_ast = gen_py_ast(ctx.generator_context, lisp_ast)
